@@ -240,6 +240,7 @@ bool opt_register(struct pdsh_module_option *opt_table)
 char * _check_path(char *dir, char *cwd, char *argv0)
 {
   char *abspath = NULL;
+  struct stat st;
 
   if (*dir != '/') {
     abspath = Strdup(cwd);
@@ -249,7 +250,8 @@ char * _check_path(char *dir, char *cwd, char *argv0)
   xstrcat(&abspath, "/");
   xstrcat(&abspath, argv0);
 
-  if (access(abspath, R_OK) == 0)
+  /* only a file that exec could have run is the program we are */
+  if (access(abspath, X_OK) == 0 && stat(abspath, &st) == 0 && S_ISREG(st.st_mode))
       return abspath;
 
   Free((void **) &abspath);
